@@ -218,7 +218,7 @@ def main(ctx):
     # 3. the real code: the scenarios are cut into batches (sorted, so that shared prefixes stay together),
     #    one driver process per batch (a node is never freed: its goroutines run forever), in parallel
     allc = sorted(cases + walks, key=lambda c: (c["c"], c["w"], json.dumps(c["path"])))
-    nb = 3 if quick else 10
+    nb = 3 if quick else 12
     per = (len(allc) + nb - 1) // nb
     batches = [allc[i:i + per] for i in range(0, len(allc), per)]
 
